@@ -434,7 +434,7 @@ func confirmMonitor(files []string, hr HarnessRun, params map[string]int, known 
 		p["race"] = 1
 		nr := b.run(nativeCase{Harness: hr.Entry, Vector: f.Vector, Params: p, Known: keys(known)}, 120*time.Second)
 		if strings.Contains(nr.Raw, "DATA RACE") {
-			return true, "go build -race: DATA RACE reported when the harness body runs from 4 goroutines"
+			return true, "go build -race: DATA RACE reported by the harness's concurrent demonstration mode"
 		}
 		if nr.Status == "fail" {
 			return true, "concurrent native run failed: " + nr.Msg
